@@ -7,16 +7,42 @@ use real_tokio::io::{AsyncRead, ReadBuf};
 /// Scripted stdin: the bytes come from `Sim::stdin`, split into fragments drawn from the tape.
 #[derive(Debug)]
 pub struct Stdin {
-    _p: (),
+    /// the producer at the other end of the pipe pauses: nothing arrives before this instant
+    paused_until: Option<u64>,
+    timer: simkit::exec::TimerSlot,
 }
 
 pub fn stdin() -> Stdin {
-    Stdin { _p: () }
+    Stdin { paused_until: None, timer: simkit::exec::TimerSlot::new() }
 }
 
 impl AsyncRead for Stdin {
-    fn poll_read(self: Pin<&mut Self>, cx: &mut Context<'_>, buf: &mut ReadBuf<'_>) -> Poll<io::Result<()>> {
+    fn poll_read(mut self: Pin<&mut Self>, cx: &mut Context<'_>, buf: &mut ReadBuf<'_>) -> Poll<io::Result<()>> {
         simkit::exec::yield_point();
+        // a pause of the producer, in virtual time: milliseconds to half a minute, once in a while
+        if let Some(t) = self.paused_until {
+            if simkit::now_ns() < t {
+                self.timer.arm(t, cx);
+                return Poll::Pending;
+            }
+            self.paused_until = None;
+        } else {
+            let pause = simkit::with(|s| {
+                let more = s.stdin.as_ref().map(|st| st.pos < st.data.len() && st.pos > 0).unwrap_or(false);
+                if more && s.tape.chance(1, 24) {
+                    Some(*s.tape.pick(&[1_000_000u64, 1_000_000_000, 4_900_000_000, 6_000_000_000, 11_000_000_000, 30_000_000_000]))
+                } else {
+                    None
+                }
+            });
+            if let Some(d) = pause {
+                simkit::count("stdin-producer-pause");
+                let t = simkit::now_ns().saturating_add(d);
+                self.paused_until = Some(t);
+                self.timer.arm(t, cx);
+                return Poll::Pending;
+            }
+        }
         let pending = simkit::with(|s| {
             let Some(st) = s.stdin.as_ref() else { return false };
             if st.pos >= st.data.len() {
